@@ -876,6 +876,51 @@ func cdcExecCodecOp(ctx *cdcOpCtx, line string) string {
 		}
 
 		return out
+	case "rtbig":
+		// a large resource (megabytes) through the real compression (+ encryption) wrappers and back: no size is
+		// special — whatever was stored and acknowledged must decode again
+		out, p := cdcGuard(func() string {
+			n := a.Int("size")
+			rr := NewRand(uint64(a.Int("seed")))
+			spec := make([]byte, n)
+
+			for i := range spec {
+				if i%97 == 0 || a["noise"] == "1" {
+					spec[i] = byte(rr.Next())
+				} else {
+					spec[i] = byte('a' + i%7)
+				}
+			}
+
+			md := resource.NewMetadata("n", codecResType, "big", resource.VersionUndefined.Next())
+			r := &cdcCRes{md: md, spec: cdcCSpec{S: string(spec)}}
+
+			var m store.Marshaler = compression.NewMarshaler(store.ProtobufMarshaler{}, compression.ZStd(), 1024)
+			if a["stack"] == "ce" {
+				m = compression.NewMarshaler(encryption.NewMarshaler(store.ProtobufMarshaler{}, cdcNewCipher(codecKey)), compression.ZStd(), 1024)
+			}
+
+			enc, err := m.MarshalResource(r)
+			if err != nil {
+				return "rtbig res=encode-error"
+			}
+
+			back, err := m.UnmarshalResource(enc)
+			if err != nil {
+				return "rtbig res=decode-error"
+			}
+
+			if cdcCanonRes(back) != cdcCanonRes(r) {
+				return "rtbig res=changed"
+			}
+
+			return "rtbig res=ok"
+		})
+		if p {
+			return "PANIC " + out
+		}
+
+		return out
 	case "verrt":
 		out, p := cdcGuard(func() string {
 			v, ok := cdcMkVersion(a["v"])
@@ -2103,6 +2148,9 @@ func (e *codecEngine) Corpus(_ bool) []Case {
 		"tamper stack=store,e seed=9 ns=6e typ=54 id=69 ver=2 owner= phase=running cs=1 cn=1 us=2 un=2 fins= labels=x6b:x76 ann= spec=7370 yaml=",
 		"mal target=pb hex=", "mal target=pb hex=0a00", "mal target=pb hex=0a001200", "mal target=pb hex=1200",
 		"mal target=meta hex=", "mal target=decrypt hex=", "mal target=decrypt hex=01",
+		// large records: below, at and above a few megabytes, compressible and not
+		"rtbig size=100000 seed=1 stack=c", "rtbig size=4194304 seed=2 stack=c", "rtbig size=4300000 seed=3 stack=c noise=1",
+		"rtbig size=9000000 seed=4 stack=c", "rtbig size=5000000 seed=5 stack=ce noise=1",
 	}
 
 	// YAML resource documents with a repeated or missing section (the custom unmarshaler sees duplicate keys)
